@@ -1009,6 +1009,7 @@ Proof.
     assert (H04 : OK3 P zero s s4) by (eapply OK3_trans0; [exact H2|eapply OK3_trans0; [exact H3|exact H4]]).
     pose proof (OK3_next _ _ _ _ H04) as L4.
     assert (Hnlt : n < next s) by (apply (od_dom _ _ _ _ W); eauto).
+    destruct (alive n s4); cbn [andb negb]; [|split; [exact H04|exact I]].
     set (B := set_tracker (Some []) (set_current (Some n) s4)).
     assert (WB : OWN P B).
     { apply (OWN_cur P (set_tracker (Some []) s4)); [apply H4|]. exists n. split; [reflexivity|cbn; lia]. }
